@@ -139,7 +139,7 @@ def match_known(finding: Finding, known) -> str | None:
 
 
 class RunResult:
-    __slots__ = ("ops", "findings", "events", "stats", "cfg", "sigs")
+    __slots__ = ("ops", "findings", "events", "stats", "cfg", "sigs", "replaying")
 
     def __init__(self):
         self.ops = []          # executed ops (JSON values)
@@ -148,6 +148,7 @@ class RunResult:
         self.stats = Counter()
         self.cfg = None
         self.sigs = {}
+        self.replaying = False
 
 
 def execute_ops(sim, cfg, ops, stop_on=None) -> RunResult:
@@ -156,6 +157,7 @@ def execute_ops(sim, cfg, ops, stop_on=None) -> RunResult:
     skipped by the world itself (it returns no findings and logs 'skip')."""
     res = RunResult()
     res.cfg = cfg
+    res.replaying = True
     world = sim.new_world(cfg, res)
     for i, op in enumerate(ops):
         res.ops.append(op)
@@ -329,6 +331,14 @@ def run_forked(jobs, workers, fn):
                 if pid == 0:
                     code = 0
                     try:
+                        # drop oracles inherited from the parent (their pipes belong to it)
+                        for o in _ORACLES.values():
+                            for fd in (o.req_w, o.res_r):
+                                try:
+                                    os.close(fd)
+                                except OSError:
+                                    pass
+                        _ORACLES.clear()
                         _worker_init()
                         out = fn(*jobs[nxt])
                         with open(path + ".tmp", "wb") as f:
@@ -369,6 +379,122 @@ def n_workers() -> int:
         return max(1, int(os.environ.get("VERIF_WORKERS", "") or os.cpu_count() or 4))
     except ValueError:
         return 4
+
+
+# --------------------------------------------------------------------------
+# pristine-process oracle
+#
+# A reference model that is "the real code without history" (a fresh parser)
+# is only history-free if the code keeps no state outside the object.  A
+# module- or class-level cache would corrupt the reference together with the
+# system under test and the two would agree.  The pristine oracle answers a
+# request in a grandchild forked from a zygote that was itself forked before
+# this process executed any code under test, so nothing any run did can reach
+# it.
+
+
+class PristineOracle:
+    def __init__(self, handler):
+        import pickle
+        self._pickle = pickle
+        self.handler = handler
+        self.req_r, self.req_w = os.pipe()
+        self.res_r, self.res_w = os.pipe()
+        sys.stdout.flush()
+        sys.stderr.flush()
+        self.pid = os.fork()
+        if self.pid == 0:
+            try:
+                os.close(self.req_w)
+                os.close(self.res_r)
+                self._serve()
+            except BaseException:
+                traceback.print_exc()
+            finally:
+                os._exit(0)
+        os.close(self.req_r)
+        os.close(self.res_w)
+        self.requests = 0
+
+    # -- framing
+    @staticmethod
+    def _send(fd, data: bytes):
+        os.write(fd, len(data).to_bytes(4, "big") + data)
+
+    @staticmethod
+    def _recv(fd):
+        def rd(n):
+            buf = b""
+            while len(buf) < n:
+                chunk = os.read(fd, n - len(buf))
+                if not chunk:
+                    return None
+                buf += chunk
+            return buf
+        head = rd(4)
+        if head is None:
+            return None
+        return rd(int.from_bytes(head, "big"))
+
+    def _serve(self):
+        # the zygote: never executes code under test itself
+        while True:
+            data = self._recv(self.req_r)
+            if data is None:
+                return
+            pid = os.fork()
+            if pid == 0:
+                try:
+                    # (no faulthandler watchdog here: re-arming it in a process forked while the
+                    # parent's watchdog thread was alive deadlocks; handlers bound their own work)
+                    out = self.handler(self._pickle.loads(data))
+                    self._send(self.res_w, self._pickle.dumps(("ok", out)))
+                except BaseException as e:  # noqa
+                    self._send(self.res_w, self._pickle.dumps(("err", repr(e))))
+                finally:
+                    os._exit(0)
+            _, status = os.waitpid(pid, 0)
+            if status != 0:
+                self._send(self.res_w, self._pickle.dumps(("err", f"oracle child status {status}")))
+
+    def ask(self, request):
+        self.requests += 1
+        self._send(self.req_w, self._pickle.dumps(request))
+        data = self._recv(self.res_r)
+        if data is None:
+            raise HarnessError("pristine oracle went away")
+        kind, out = self._pickle.loads(data)
+        if kind != "ok":
+            raise HarnessError(f"pristine oracle failed: {out}")
+        return out
+
+    def close(self):
+        try:
+            os.close(self.req_w)
+            os.close(self.res_r)
+            os.waitpid(self.pid, 0)
+        except OSError:
+            pass
+
+
+_ORACLES = {}
+
+
+def start_oracle(name, handler):
+    """Must be called before this process has executed any code under test."""
+    if name not in _ORACLES:
+        _ORACLES[name] = PristineOracle(handler)
+    return _ORACLES[name]
+
+
+def get_oracle(name):
+    return _ORACLES.get(name)
+
+
+def close_oracles():
+    for o in _ORACLES.values():
+        o.close()
+    _ORACLES.clear()
 
 
 # --------------------------------------------------------------------------
